@@ -27,15 +27,16 @@ echo "$with_demo" | grep -q "FAILED" || ok=0
 if [ $ok -ne 1 ]; then echo "NOT CONFIRMED $P-$X$TAG"; exit 3; fi
 D=seeded/$P-$X$TAG; mkdir -p "$D"; cp "$SRC/patch.diff" "$SRC/demo.rs" "$D/"
 results=""
-for q in "$P" "$@"; do
+PROP=${P:0:3}
+for q in "$PROP" "$@"; do
   r=$(tools/mutant.sh "$D/patch.diff" "$q" | tail -1); echo "$r"; results="$results$r\n"
 done
-python3 - "$P" "$X$TAG" "$SRC/notes.json" "$D/meta.json" "$base_demo" "$with_lib" "$with_demo" "$results" <<'PY'
+python3 - "$PROP" "$P-$X$TAG" "$SRC/notes.json" "$D/meta.json" "$base_demo" "$with_lib" "$with_demo" "$results" <<'PY'
 import json,sys
 P,X,notes,out,bd,wl,wd,res=sys.argv[1:9]
 try: n=json.load(open(notes))
 except Exception: n={}
-json.dump({"breaks_property":P,"id":f"{P}-{X}","summary":n.get("summary",""),"needs_to_manifest":n.get("needs",""),
+json.dump({"breaks_property":P,"id":X,"summary":n.get("summary",""),"needs_to_manifest":n.get("needs",""),
  "author":"independent sub-agent given only the property text and a scratch worktree",
  "demo_profile":"'+('release' if '--release' in open(notes).read() else 'debug')+'","confirmed_by_me":{"worktree":"scratch git worktree of /repo HEAD under /tmp/seedconfirm (removed afterwards)",
    "unpatched: cargo test --offline --test demo":bd,"patched: cargo test --offline --lib":wl,"patched: cargo test --offline --test demo":wd},
